@@ -27,3 +27,15 @@ Definition upd_ (l : list Z) (i : nat) (v : Z) : list Z := firstn i l ++ v :: sk
 Definition panic_ {A} (dummy : A) : A := dummy.
 Definition div_ (a b : Z) : Z := a / b.                  (* a / b, unsigned (b = 0 panics in Rust) *)
 Definition rem_ (a b : Z) : Z := a mod b.                (* a % b, unsigned *)
+
+(* signed machine integers i<w>: the Z in [-2^(w-1), 2^(w-1)); arithmetic wraps to two's complement. & | ^ are Z.land / Z.lor /
+   Z.lxor (two's complement on negative Z), `>>` is the arithmetic shift = shr_ (floor division) *)
+Definition swrap_ (w a : Z) : Z := (a + 2 ^ (w - 1)) mod 2 ^ w - 2 ^ (w - 1).   (* e as i<w>, narrowing / from u<w> *)
+Definition sadd_ (w a b : Z) : Z := swrap_ w (a + b).
+Definition ssub_ (w a b : Z) : Z := swrap_ w (a - b).
+Definition smul_ (w a b : Z) : Z := swrap_ w (a * b).
+Definition sneg_ (w a : Z) : Z := swrap_ w (- a).         (* -a *)
+Definition snot_ (a : Z) : Z := - a - 1.                  (* !a *)
+Definition sshl_ (w a s : Z) : Z := swrap_ w (a * 2 ^ s). (* a << s *)
+Definition satsub_ (a b : Z) : Z := if a <? b then 0 else a - b.   (* a.saturating_sub(b), unsigned *)
+Definition div_ceil_ (a b : Z) : Z := (a + b - 1) / b.              (* a.div_ceil(b), unsigned, b > 0 *)
